@@ -4,6 +4,7 @@
   front of the parenthesis, the last child continuing the chain.
 -/
 import CGV.Props.C07Path
+import CGV.Props.C04Tree
 namespace CGV.C07
 open CGV Gen C04
 set_option linter.unusedSimpArgs false
@@ -89,7 +90,7 @@ theorem writeStep_node (g : WGraph) (pred : List (Nat × Nat)) (hr : g.ringEdges
 
 /-! ### bookkeeping of keys -/
 
-theorem RT.size_pos (t : RT) : 1 ≤ t.size := by cases t; simp [RT.size]; omega
+theorem RT.size_pos (t : RT) : 1 ≤ t.size := by cases t; simp [RT.size] <;> omega
 
 theorem kidKeys_range : ∀ (ks : Kids) (k x : Nat), x ∈ kidKeys k ks → k ≤ x ∧ x < k + ks.size
   | .nil, k, x, h => by simp [kidKeys] at h
@@ -108,15 +109,13 @@ theorem kidKeys_nil_iff (ks : Kids) (k : Nat) : kidKeys k ks = [] ↔ ks = .nil 
 /-- all kids but the last: the ones written in parentheses -/
 def brKeys (k : Nat) (ks : Kids) : List Nat := (kidKeys k ks).dropLast
 
-theorem drop_one_reverse (l : List Nat) : l.reverse.drop 1 = l.dropLast.reverse := by
-  induction l with
-  | nil => rfl
-  | cons x xs ih =>
-    cases xs with
-    | nil => simp
-    | cons y ys =>
-      rw [List.dropLast_cons_of_ne_nil (by simp), List.reverse_cons, List.reverse_cons x]
-      rw [List.drop_append_of_le_length (by simp), ih]
+theorem drop_one_reverse : ∀ (l : List Nat), l.reverse.drop 1 = l.dropLast.reverse
+  | [] => rfl
+  | [x] => by simp
+  | x :: y :: ys => by
+    have ih := drop_one_reverse (y :: ys)
+    have hlen : 1 ≤ (y :: ys).reverse.length := by simp
+    rw [List.reverse_cons, List.drop_append_of_le_length hlen, ih, List.dropLast_cons₂, List.reverse_cons]
 
 def closeText (d : Nat) : Str := if d > 0 then [')'] else []
 
@@ -148,8 +147,10 @@ theorem erase_not_mem (l : List Nat) (k : Nat) (h : k ∉ l) : l.erase k = l := 
 
 theorem mem_erase_sub (l : List Nat) (k x : Nat) (h : x ∈ l.erase k) : x ∈ l := List.mem_of_mem_erase h
 
-theorem brKeys_sub (k : Nat) (ks : Kids) (x : Nat) (h : x ∈ brKeys k ks) : x ∈ kidKeys k ks :=
-  List.mem_of_mem_dropLast h
+theorem brKeys_sub (k : Nat) (ks : Kids) (x : Nat) (h : x ∈ brKeys k ks) : x ∈ kidKeys k ks := by
+  unfold brKeys at h
+  rw [List.dropLast_eq_take] at h
+  exact List.mem_of_mem_take h
 
 theorem kidKeys_cons (k o : Nat) (t : RT) (r : Kids) : kidKeys k (.cons o t r) = k :: kidKeys (k + t.size) r := rfl
 
@@ -159,13 +160,13 @@ theorem brKeys_cons (k o o' : Nat) (t t' : RT) (r : Kids) :
     brKeys k (.cons o t (.cons o' t' r)) = k :: brKeys (k + t.size) (.cons o' t' r) := by
   simp [brKeys, kidKeys]
 
-variable (g : WGraph) (pred : List (Nat × Nat)) (hr : g.ringEdges = []) (hf : g.smilesFormat = false)
+variable (g : WGraph) (pred : List (Nat × Nat))
 
 mutual
 /-- the loop started on the root of a contained subtree writes the subtree's text (in parentheses
     if the root is a pending branch), closes the innermost open parenthesis at the end of the
     subtree's chain, and leaves the rest of the stack untouched -/
-theorem loop_T : ∀ (T : RT) (k : Nat) (acc : Str) (base bs : List Nat) (d : Nat) (sym : Str) (fuel : Nat),
+theorem loop_T (hr : g.ringEdges = []) (hf : g.smilesFormat = false) : ∀ (T : RT) (k : Nat) (acc : Str) (base bs : List Nat) (d : Nat) (sym : Str) (fuel : Nat),
     EmbT g pred k T → SymAt g pred k sym → (∀ x ∈ bs, x ≤ k ∨ k + T.size ≤ x) →
     writeLoop g pred (fuel + T.size) ⟨acc, base ++ [k], bs, d, []⟩ =
       writeLoop g pred fuel
@@ -182,8 +183,11 @@ theorem loop_T : ∀ (T : RT) (k : Nat) (acc : Str) (base bs : List Nat) (d : Na
     cases ks with
     | nil =>
       simp only [kidKeys, afterNode, Kids.size, Nat.add_zero, RT.text, Kids.text, List.append_nil, closeText]
-      cases hb : bs.contains k <;> simp [hb]
-      all_goals (split <;> simp_all)
+      cases hb : bs.contains k
+      · have hkn : k ∉ bs := by simpa using hb
+        simp only [hb, Bool.false_eq_true, if_false, erase_not_mem bs k hkn, List.append_nil]
+        split <;> simp_all
+      · simp only [if_true, Nat.add_sub_cancel, show d + 1 > 0 from Nat.succ_pos d]
     | cons o t r =>
       have hkk : kidKeys (k + 1) (Kids.cons o t r) = (k + 1) :: kidKeys (k + 1 + t.size) r := rfl
       simp only [hkk, afterNode]
@@ -207,7 +211,7 @@ theorem loop_T : ∀ (T : RT) (k : Nat) (acc : Str) (base bs : List Nat) (d : Na
         have := hbs1 x hmem
         omega
       rw [hdrop, hfilter]
-      have hK := loop_K (Kids.cons o t r) k (k + 1)
+      have hK := loop_K hr hf (Kids.cons o t r) k (k + 1)
         (acc ++ sym ++ (if bs.contains k then ['('] else []) ++ nodeText nm) base
         (if bs.contains k then bs.erase k else bs) (if bs.contains k then d + 1 else d) fuel (by simp) hkids hbs1
       rw [hkk] at hK
@@ -218,7 +222,7 @@ theorem loop_T : ∀ (T : RT) (k : Nat) (acc : Str) (base bs : List Nat) (d : Na
       · simp [hb, RT.text]
 /-- … and started on the pending kids of a node it writes them one after the other: every kid but
     the last in parentheses, the last as the continuation of the chain -/
-theorem loop_K : ∀ (ks : Kids) (p k : Nat) (acc : Str) (base bs : List Nat) (d : Nat) (fuel : Nat), ks ≠ .nil →
+theorem loop_K (hr : g.ringEdges = []) (hf : g.smilesFormat = false) : ∀ (ks : Kids) (p k : Nat) (acc : Str) (base bs : List Nat) (d : Nat) (fuel : Nat), ks ≠ .nil →
     EmbK g pred p k ks → (∀ x ∈ bs, x < k ∨ k + ks.size ≤ x) →
     writeLoop g pred (fuel + ks.size) ⟨acc, base ++ (kidKeys k ks).reverse, bs ++ (brKeys k ks).reverse, d, []⟩ =
       writeLoop g pred fuel ⟨acc ++ ks.text ++ closeText d, base, bs, d - 1, []⟩
@@ -239,11 +243,11 @@ theorem loop_K : ∀ (ks : Kids) (p k : Nat) (acc : Str) (base bs : List Nat) (d
       have := hfresh x hx
       simp only [Kids.size] at this
       omega
-    have hT' := loop_T t k acc base bs d (symText o) fuel hT hsym hfT
+    have hT' := loop_T hr hf t k acc base bs d (symText o) fuel hT hsym hfT
     simp only [kidKeys, List.reverse_cons, List.reverse_nil, List.nil_append, brKeys_single, List.append_nil, Kids.size,
       Nat.add_zero, Kids.text]
     rw [hT']
-    simp [hcont, erase_not_mem bs k hkn]
+    simp [hcont, hkn, erase_not_mem bs k hkn]
   | .cons o t (.cons o' t' r), p, k, acc, base, bs, d, fuel, _, hemb, hfresh => by
     unfold EmbK at hemb
     obtain ⟨hpred, hes, hT, hR⟩ := hemb
@@ -276,14 +280,14 @@ theorem loop_K : ∀ (ks : Kids) (p k : Nat) (acc : Str) (base bs : List Nat) (d
         · have := kidKeys_range _ _ _ (brKeys_sub _ _ _ (List.mem_reverse.mp hx))
           omega
       · simp only [List.mem_singleton] at hx; omega
-    have hT' := loop_T t k acc (base ++ (kidKeys (k + t.size) (Kids.cons o' t' r)).reverse)
+    have hT' := loop_T hr hf t k acc (base ++ (kidKeys (k + t.size) (Kids.cons o' t' r)).reverse)
       ((bs ++ (brKeys (k + t.size) (Kids.cons o' t' r)).reverse) ++ [k]) d (symText o) (fuel + (Kids.cons o' t' r).size) hT hsym hfT
     have hfR : ∀ x ∈ bs, x < k + t.size ∨ k + t.size + (Kids.cons o' t' r).size ≤ x := by
       intro x hx
       have := hfresh x hx
       simp only [Kids.size] at this ⊢
       omega
-    have hR' := loop_K (Kids.cons o' t' r) p (k + t.size)
+    have hR' := loop_K hr hf (Kids.cons o' t' r) p (k + t.size)
       (acc ++ symText o ++ ['('] ++ t.text ++ closeText (d + 1)) base bs d fuel (by simp) hR hfR
     rw [hstack, hbr]
     rw [show fuel + (Kids.cons o t (Kids.cons o' t' r)).size = (fuel + (Kids.cons o' t' r).size) + t.size from by
@@ -301,5 +305,194 @@ theorem loop_K : ∀ (ks : Kids) (p k : Nat) (acc : Str) (base bs : List Nat) (d
     congr 1
     simp [Kids.text, closeText]
 end
+
+/-! ### the writer on a whole tree -/
+
+/-- **the writer on trees.** If the node table, the successor table (`dfs_successors` from the root,
+    numbered in pre-order) and the edge symbols of `g` are those of the tree `T`, the writer produces the
+    nested text of `T`: every child but the last in parentheses with its bond symbol in front of the
+    parenthesis, the last child continuing the chain — whatever the branching, depth and size. -/
+theorem writeGraph_tree (g : WGraph) (T : RT) (hr : g.ringEdges = []) (hf : g.smilesFormat = false)
+    (hemb : EmbT g (predOf g) 0 T) (hroot : (predOf g).lookup 0 = none)
+    (hmin : ∃ ks, g.nodes.map (·.key) = 0 :: ks) (hlen : g.nodes.length = T.size) :
+    writeGraph g = .ok T.text := by
+  obtain ⟨ks, hks⟩ := hmin
+  unfold writeGraph
+  simp only [hks, foldl_min_zero, hlen, bind, Except.bind, pure, Except.pure]
+  have hpd : (List.flatMap (fun x => List.map (fun s => (s, x.fst)) x.snd) g.succ) = predOf g := rfl
+  rw [hpd]
+  have hsym : SymAt g (predOf g) 0 [] := by unfold SymAt; rw [hroot]; rfl
+  have h := loop_T g (predOf g) hr hf T 0 [] [] [] 0 [] 1 hemb hsym (by intro x hx; cases hx)
+  simp only [List.nil_append, List.contains_nil, Bool.false_eq_true, if_false, List.erase_nil, closeText,
+    Nat.lt_irrefl, List.append_nil, Nat.zero_sub] at h
+  rw [show T.size + 1 = 1 + T.size from by omega]
+  have hst : ({ toVisit := [0] } : WState) = ⟨[], [0], [], 0, []⟩ := rfl
+  rw [hst, h]
+  simp [writeLoop, pure, Except.pure]
+
+/-! ### the same text as a flat list of items (the reader's grammar) -/
+
+mutual
+/-- the items of a subtree: `o` = order of the bond leading to it, `opens` = it is written in
+    parentheses, `cl` = a parenthesis has to be closed at the end of its chain -/
+def itemsT (o : Nat) (opens cl : Bool) : RT → List TItem
+  | .node nm .nil => [⟨nm, o, opens, if cl then 1 else 0⟩]
+  | .node nm (.cons o' t r) => ⟨nm, o, opens, 0⟩ :: itemsK cl (.cons o' t r)
+def itemsK (cl : Bool) : Kids → List TItem
+  | .nil => []
+  | .cons o t .nil => itemsT o false cl t
+  | .cons o t (.cons o' t' r) => itemsT o true true t ++ itemsK cl (.cons o' t' r)
+end
+
+def renderBodyT (its : List TItem) : Str := its.flatMap renderItem
+
+theorem renderItems_body (its : List TItem) : renderItems its = renderBodyT its ++ ['}'] := by
+  induction its with
+  | nil => rfl
+  | cons it r ih => simp [renderItems, renderBodyT, ih] at *
+
+def closeB (cl : Bool) : Str := if cl then [')'] else []
+
+mutual
+theorem render_itemsT : ∀ (T : RT) (o : Nat) (opens cl : Bool),
+    renderBodyT (itemsT o opens cl T) = symText o ++ openText opens ++ T.text ++ closeB cl
+  | .node nm .nil, o, opens, cl => by
+    cases cl <;> simp [itemsT, renderBodyT, renderItem, RT.text, Kids.text, closeB]
+  | .node nm (.cons o' t r), o, opens, cl => by
+    have ih := render_itemsK (.cons o' t r) cl (by simp)
+    simp only [itemsT, renderBodyT, List.flatMap_cons, renderItem, List.replicate_zero, List.append_nil, RT.text] at ih ⊢
+    rw [ih]
+    simp
+theorem render_itemsK : ∀ (ks : Kids) (cl : Bool), ks ≠ .nil → renderBodyT (itemsK cl ks) = ks.text ++ closeB cl
+  | .nil, _, h => absurd rfl h
+  | .cons o t .nil, cl, _ => by
+    have ih := render_itemsT t o false cl
+    simp only [itemsK, Kids.text]
+    rw [ih]
+    simp [openText]
+  | .cons o t (.cons o' t' r), cl, _ => by
+    have ih1 := render_itemsT t o true true
+    have ih2 := render_itemsK (.cons o' t' r) cl (by simp)
+    simp only [itemsK, Kids.text, renderBodyT, List.flatMap_append] at ih1 ih2 ⊢
+    rw [ih1, ih2]
+    simp [openText, closeB]
+end
+
+mutual
+/-- names and bond orders of the documented grammar -/
+def OkT : RT → Prop
+  | .node nm ks => NameOk nm ∧ OkK ks
+def OkK : Kids → Prop
+  | .nil => True
+  | .cons o t r => o ≤ 4 ∧ OkT t ∧ OkK r
+end
+
+mutual
+theorem itemsT_ok : ∀ (T : RT) (o : Nat) (opens cl : Bool), o ≤ 4 → OkT T → ∀ it ∈ itemsT o opens cl T, TItemOk it
+  | .node nm .nil, o, opens, cl, ho, hT, it, hit => by
+    unfold OkT at hT
+    simp only [itemsT, List.mem_singleton] at hit
+    subst hit
+    exact ⟨hT.1, ho⟩
+  | .node nm (.cons o' t r), o, opens, cl, ho, hT, it, hit => by
+    unfold OkT at hT
+    simp only [itemsT, List.mem_cons] at hit
+    rcases hit with rfl | hit
+    · exact ⟨hT.1, ho⟩
+    · exact itemsK_ok (.cons o' t r) cl hT.2 it hit
+theorem itemsK_ok : ∀ (ks : Kids) (cl : Bool), OkK ks → ∀ it ∈ itemsK cl ks, TItemOk it
+  | .nil, _, _, it, hit => by simp [itemsK] at hit
+  | .cons o t .nil, cl, hK, it, hit => by
+    unfold OkK at hK
+    simp only [itemsK] at hit
+    exact itemsT_ok t o false cl hK.1 hK.2.1 it hit
+  | .cons o t (.cons o' t' r), cl, hK, it, hit => by
+    unfold OkK at hK
+    simp only [itemsK, List.mem_append] at hit
+    rcases hit with hit | hit
+    · exact itemsT_ok t o true true hK.1 hK.2.1 it hit
+    · exact itemsK_ok (.cons o' t' r) cl hK.2.2 it hit
+end
+
+mutual
+theorem itemsT_balanced : ∀ (T : RT) (o : Nat) (opens cl : Bool) (d : Nat) (rest : List TItem),
+    (cl = true → 1 ≤ d + (if opens then 1 else 0)) →
+    Balanced (d + (if opens then 1 else 0) - (if cl then 1 else 0)) rest →
+    Balanced d (itemsT o opens cl T ++ rest)
+  | .node nm .nil, o, opens, cl, d, rest, hcl, hrest => by
+    simp only [itemsT, List.singleton_append, Balanced]
+    refine ⟨?_, hrest⟩
+    cases cl
+    · simp
+    · simpa using hcl rfl
+  | .node nm (.cons o' t r), o, opens, cl, d, rest, hcl, hrest => by
+    simp only [itemsT, List.cons_append, Balanced, Nat.zero_le, true_and, Nat.sub_zero]
+    exact itemsK_balanced (.cons o' t r) cl _ rest (by simp) hcl hrest
+theorem itemsK_balanced : ∀ (ks : Kids) (cl : Bool) (d : Nat) (rest : List TItem), ks ≠ .nil →
+    (cl = true → 1 ≤ d) → Balanced (d - (if cl then 1 else 0)) rest → Balanced d (itemsK cl ks ++ rest)
+  | .nil, _, _, _, h, _, _ => absurd rfl h
+  | .cons o t .nil, cl, d, rest, _, hcl, hrest => by
+    simp only [itemsK]
+    exact itemsT_balanced t o false cl d rest (by simpa using hcl) (by simpa using hrest)
+  | .cons o t (.cons o' t' r), cl, d, rest, _, hcl, hrest => by
+    simp only [itemsK, List.append_assoc]
+    apply itemsT_balanced t o true true d _ (by intro _; simp)
+    simp only [if_true, Nat.add_sub_cancel]
+    exact itemsK_balanced (.cons o' t' r) cl d rest (by simp) hcl hrest
+end
+
+/-- **C07 for trees.** For every tree — any branching, any depth, alphanumeric names, bond orders 0–4 —
+    whose tables `g` holds (see `writeGraph_tree`), the string the writer produces is read back to the
+    graph that its nested text denotes: the root followed by the items of the tree in the order written. -/
+theorem C07_tree_roundtrip (g : WGraph) (first : Str) (ks : Kids) (hr : g.ringEdges = []) (hf : g.smilesFormat = false)
+    (hemb : EmbT g (predOf g) 0 (.node first ks)) (hroot : (predOf g).lookup 0 = none)
+    (hmin : ∃ l, g.nodes.map (·.key) = 0 :: l) (hlen : g.nodes.length = (RT.node first ks).size)
+    (hok : OkT (.node first ks)) :
+    (writeCG g).bind readCG = .ok (treeGraph first (itemsK false ks)) := by
+  unfold writeCG
+  rw [writeGraph_tree g (.node first ks) hr hf hemb hroot hmin hlen]
+  simp only [bind, Except.bind, pure, Except.pure]
+  unfold OkT at hok
+  have htext : '{' :: ((RT.node first ks).text ++ ['}']) = renderTree first (itemsK false ks) := by
+    unfold renderTree
+    rw [renderItems_body]
+    cases ks with
+    | nil => simp [RT.text, Kids.text, itemsK, renderBodyT]
+    | cons o t r =>
+      rw [render_itemsK (.cons o t r) false (by simp)]
+      simp [RT.text, closeB]
+  rw [htext]
+  apply C04_read_tree first _ hok.1
+  · exact itemsK_ok ks false hok.2
+  · cases ks with
+    | nil => simp [itemsK, Balanced]
+    | cons o t r =>
+      have := itemsK_balanced (.cons o t r) false 0 [] (by simp) (by intro h; cases h) (by simp [Balanced])
+      simpa using this
+
+/-! ### an instance: the hypotheses are satisfiable, the conclusion is what the kernel computes -/
+
+/-- `A =(B (C) D) E` in pre-order: A0, B1, C2, D3, E4 -/
+def exTree : RT :=
+  .node "A".toList (.cons 2 (.node "B".toList (.cons 1 (.node "C".toList .nil) (.cons 3 (.node "D".toList .nil) .nil)))
+                    (.cons 1 (.node "E".toList .nil) .nil))
+
+def exGraph : WGraph :=
+  { nodes := [⟨0, "[#A]".toList, [], false⟩, ⟨1, "[#B]".toList, [], false⟩, ⟨2, "[#C]".toList, [], false⟩,
+              ⟨3, "[#D]".toList, [], false⟩, ⟨4, "[#E]".toList, [], false⟩],
+    edges := [⟨0, 1, 4⟩, ⟨1, 2, 2⟩, ⟨1, 3, 6⟩, ⟨0, 4, 2⟩],
+    succ := [(0, [4, 1]), (1, [3, 2])], ringEdges := [], smilesFormat := false }
+
+example : exTree.text = "[#A]=([#B]([#C])#[#D])[#E]".toList := by decide +kernel
+
+theorem exGraph_emb : EmbT exGraph (predOf exGraph) 0 exTree := by
+  unfold exTree
+  simp only [EmbT, EmbK, kidKeys, RT.size, Kids.size]
+  refine ⟨by rfl, by rfl, ⟨by rfl, by decide +kernel, ⟨by rfl, by rfl, ⟨by rfl, by decide +kernel, ⟨by rfl, by rfl, trivial⟩,
+    ⟨by rfl, by decide +kernel, ⟨by rfl, by rfl, trivial⟩, trivial⟩⟩⟩, ⟨by rfl, by decide +kernel, ⟨by rfl, by rfl, trivial⟩, trivial⟩⟩⟩
+
+example : writeGraph exGraph = .ok "[#A]=([#B]([#C])#[#D])[#E]".toList := by
+  have := writeGraph_tree exGraph exTree rfl rfl exGraph_emb (by rfl) ⟨_, rfl⟩ (by rfl)
+  rw [this]; decide +kernel
 
 end CGV.C07
